@@ -100,7 +100,7 @@ def tlc(module, cfg_text, env=None, workers=None, timeout=1800, extra=(), simula
         cfg = os.path.join(tmp, module + '.cfg')
         with open(cfg, 'w') as f:
             f.write(cfg_text)
-        cmd = ['java', '-XX:+UseParallelGC', '-Xmx' + heap, '-Xss1g']
+        cmd = ['java', '-XX:+UseParallelGC', '-Xmx' + heap, '-Xss1g', '-Djava.io.tmpdir=' + tmp]     # TLC leaves a tlc-<n> dir in java's tmpdir
         if depth_first:
             cmd.append('-Dtlc2.tool.queue.IStateQueue=StateDeque')
         cmd += ['-cp', TLA_CP, 'tlc2.TLC', '-workers', str(workers), '-metadir', os.path.join(tmp, 'meta'),
